@@ -201,7 +201,7 @@ def tlc(module, cfg, workers=None, env=None, simulate=None, depth=None, extra=()
     """
     res = TlcResult()
     meta = tempfile.mkdtemp(prefix="tlc-meta-", dir=_scratch())
-    javaopts = ["-XX:+UseParallelGC"] if (workers or NCPU) > 2 else ["-XX:+UseSerialGC", "-XX:TieredStopAtLevel=1"]
+    javaopts = ["-XX:+UseParallelGC", "-Xss64m"] if (workers or NCPU) > 2 else ["-XX:+UseSerialGC", "-XX:TieredStopAtLevel=1", "-Xss64m"]
     if heap:
         javaopts.append("-Xmx" + heap)
     if dfs:
